@@ -96,7 +96,9 @@ Definition verify_share (lock : lockt) (v : N) (i : Z) (raw : bool) (rho : N) (s
 Record item := mki {
   i_who : option N; i_idx : Z; i_raw : bool; i_root : N; i_sig : gsig; i_prop : bool; i_inner : bool }.
 
-(* core/gater.go *)
+(* core/gater.go.  Slots and epochs are unbounded naturals (binary [N]): "outside the allowed window"
+   is judged on the numbers themselves, for every uint64 slot a peer can name (2^53, 2^63, 2^64-1 ...),
+   never on a machine-time arithmetic that could wrap. *)
 Record gate := mkg { g_type_valid : bool; g_duty_slot : N; g_now_slot : N; g_spe : N; g_allowed : N }.
 Definition gate_ok (g : gate) : bool :=
   g_type_valid g && N.leb (g_duty_slot g / g_spe g) (g_now_slot g / g_spe g + g_allowed g).
